@@ -497,6 +497,16 @@ def reconf_correspondence(ck, ok, tier, replay=None):
             if okc and list(mo) != real:
                 ck.broke("correspondence", "reconf-model-vs-impl", ex)
     ck.count("reconf_sequences", len(cases))
+    if not replay:
+        # settings for ids that never arrive (the peer configured a channel it had closed, or the two crossed on the wire) do not
+        # pile up: per-gateway state stays bounded however many such conversations there were
+        gw, io = stub_gateway(1)
+        for i in range(400):
+            gb.Message(gb.Message.RECONFIGURE, 1000 + 2 * i, gb.dumps_internal((True, False))).received(gw)
+        tables = {k: len(v) for k, v in vars(gw._channelfactory).items() if isinstance(v, (dict, list, set)) or type(v).__name__ == "WeakValueDictionary"}
+        ck.case(("reconf-forgotten-ids",), nontrivial=True)
+        if any(n > 100 for n in tables.values()):
+            ck.fail("reconfigure-of-forgotten-ids-grows-the-tables", {"tables": tables, "reconfigures": 400})
 
 
 def ids_correspondence(ck, ok, tier, replay=None):
